@@ -1,0 +1,39 @@
+//go:build verif
+
+package nebula
+
+import (
+	"log/slog"
+
+	"github.com/slackhq/nebula/noiseutil"
+)
+
+// Verification hooks for the `counter` correspondence engine (add-only, no behaviour).
+
+// VerifCounterNewCS builds a ConnectionState around the given send cipher with messageCounter preset.
+func VerifCounterNewCS(eKey noiseutil.CipherState, counter uint64) *ConnectionState {
+	cs := &ConnectionState{eKey: eKey, window: NewBits(ReplayWindow)}
+	cs.messageCounter.Store(counter)
+	return cs
+}
+
+// VerifCounterAdd is the bare `messageCounter.Add(1)` of the send paths.
+func VerifCounterAdd(cs *ConnectionState) uint64 { return cs.messageCounter.Add(1) }
+
+// VerifCounterStore is the bare `messageCounter.Store(v)` of NextMessageCounter.
+func VerifCounterStore(cs *ConnectionState, v uint64) { cs.messageCounter.Store(v) }
+
+// VerifCounterLoad reads the counter.
+func VerifCounterLoad(cs *ConnectionState) uint64 { return cs.messageCounter.Load() }
+
+// VerifCounterEncrypt calls the tunnel's send cipher the way the send paths do.
+func VerifCounterEncrypt(cs *ConnectionState, out, ad, plaintext []byte, n uint64, nb []byte) ([]byte, error) {
+	return cs.eKey.EncryptDanger(out, ad, plaintext, n, nb)
+}
+
+// VerifCounterSendInsideEncrypt runs the hot data path's reserve-and-encrypt step on a bare tunnel.
+func VerifCounterSendInsideEncrypt(l *slog.Logger, cs *ConnectionState, remoteIndex uint32, seg, scratch, nb []byte) []byte {
+	f := &Interface{l: l}
+	hi := &HostInfo{remoteIndexId: remoteIndex, ConnectionState: cs}
+	return f.sendInsideEncrypt(hi, cs, seg, scratch, nb)
+}
